@@ -135,6 +135,7 @@ var specs = map[string]*CheckSpec{
 			{Name: "c06.peer", Count: 4000},
 			{Name: "c06.peerv1", Count: 1000},
 			{Name: "c06.race", Count: 600},
+			{Name: "c06.blank", Count: 2500},
 		},
 		Thorough: []Batch{
 			{Name: "c06.serial", Count: 150000},
@@ -144,8 +145,9 @@ var specs = map[string]*CheckSpec{
 			{Name: "c06.peer", Count: 200000},
 			{Name: "c06.peerv1", Count: 40000},
 			{Name: "c06.race", Count: 30000},
+			{Name: "c06.blank", Count: 80000},
 		},
-		Rule: "each run = one seeded session (real client vs real server over simulated pipes) under one scheduling strategy; batch c06.race repeats the mixed sessions in a -race build and reports SDK data races on maps (process death); distinct = distinct schedule signature (hash of the sequence of context switches kind@site->kind@site); non-trivial = at least one preemption of a runnable goroutine",
+		Rule: "each run = one seeded session (real client vs real server over simulated pipes) under one scheduling strategy; batch c06.blank adds calls that name no step (the server's run-ID-less step-fatal answer is fanned out to every call in flight); batch c06.race repeats the mixed sessions in a -race build and reports SDK data races on maps (process death); distinct = distinct schedule signature (hash of the sequence of context switches kind@site->kind@site); non-trivial = at least one preemption of a runnable goroutine",
 		Real: atpReal, Stub: commonStub,
 		Assume: []string{"the peer is the SDK's own server (healthy by construction) or, in the c06.peer batches, a scripted protocol-conforming v3/v1 peer that also emits signals, non-fatal errors and unknown message IDs", "harness drains signalsFromStep and closes signalsToStep as the API documentation asks", "scheduling delays are logical (no fake time passes while a goroutine is held)"},
 	},
